@@ -1,8 +1,8 @@
 (* C06: the encoders produce units of the classes the stream theorem is about (so the class is inhabited by what a
    standard-conforming multiplexer emits), and a worked example. *)
 From Coq Require Import List ZArith NArith Bool Lia.
-From Astisub Require Import Kit.Base Kit.Str Kit.GoMap Gen.TtxTables Model.TtxRow Model.Ttx Model.TtxSpec.
-From Astisub Require Import Proofs.TtxTables Proofs.TtxRowProofs Proofs.TtxCodec Proofs.TtxSteps Proofs.TtxStream.
+From Astisub Require Import Kit.Base Kit.Str Kit.GoMap Gen.TtxTables Model.TtxRow Model.Ttx Model.TtxSpec Model.TtxHam.
+From Astisub Require Import Proofs.TtxHamProofs Proofs.TtxTables Proofs.TtxRowProofs Proofs.TtxCodec Proofs.TtxSteps Proofs.TtxStream.
 Import ListNotations.
 Open Scope N_scope.
 
@@ -166,31 +166,64 @@ Qed.
 
 (* X/28 format 1 and M/29 packets of the selected magazine with designation code 0 or 4 and an all-zero first triplet
    (the default character set designation) only confirm the default *)
-Theorem default_designation_neutral : forall fl mag0 pkt dc rest, 1 <= mag0 <= 8 -> pkt = 28 \/ pkt = 29 -> dc = 0 \/ dc = 4 ->
-  neutral_unit mag0 (3, enc_packet fl mag0 pkt (ham84_enc dc :: 0 :: 0 :: 0 :: rest)) = true.
+(* ---- designation packets as a standard-conformant encoder emits them ---- *)
+(* the payload of an X/28 or M/29 packet: designation code (Hamming 8/4), then the 24-bit word of the first triplet as
+   three bytes, each with its first transmitted bit in the most significant position (EN 300 472), then the rest *)
+Definition desig_payload (dc w : N) (rest : str) : str :=
+  ham84_enc dc :: brev8 (N.land w 255) :: brev8 (N.land (N.shiftr w 8) 255) :: brev8 (N.land (N.shiftr w 16) 255) :: rest.
+Lemma brev8_involutive : forall x, x < 256 -> N.land (brev8 x) 255 = brev8 x /\ brev8 (brev8 x) = x.
 Proof.
-  intros fl mag0 pkt dc rest Hm Hp Hd. unfold neutral_unit, desig_ok, desig_of.
-  rewrite (unit_addr_enc fl mag0 pkt _ (mag_addr_ok mag0 pkt Hm ltac:(lia))). rewrite N.eqb_refl.
-  cbn [length nth tl Nat.ltb Nat.leb negb andb fst snd].
-  assert (Hdec : ham84_dec (ham84_enc dc) = Some dc) by (apply ham84_dec_enc_spec; lia). rewrite Hdec.
-  destruct Hp as [-> | ->]; destruct Hd as [-> | ->]; vm_compute; reflexivity.
+  intros x Hx. pose proof (sweep (fun x => (N.land (brev8 x) 255 =? brev8 x) && (brev8 (brev8 x) =? x)) 256 ltac:(vm_compute; reflexivity) x Hx) as S.
+  cbv beta in S. apply andb_true_iff in S. destruct S as [S1 S2]. apply N.eqb_eq in S1. apply N.eqb_eq in S2. split; assumption.
 Qed.
-(* an M/29 packet (or an X/28 one in format 1) of the selected magazine with designation code 0 or 4 is a designation packet
-   whatever its first triplet says *)
-Theorem designation_unit : forall fl mag0 pkt dc t0 t1 t2 rest, 1 <= mag0 <= 8 -> dc = 0 \/ dc = 4 ->
-  pkt = 29 \/ (pkt = 28 /\ N.land (triplet_of [t0; t1; t2]) 15 = 0) ->
-  desig_ok mag0 (3, enc_packet fl mag0 pkt (ham84_enc dc :: t0 :: t1 :: t2 :: rest)) = true
-  /\ desig_of (3, enc_packet fl mag0 pkt (ham84_enc dc :: t0 :: t1 :: t2 :: rest)) = (pkt, triplet_of [t0; t1; t2]).
+Lemma dec_mask_third a b c : ham2418_dec a b (N.land c 255) = ham2418_dec a b c.
+Proof. unfold ham2418_dec. rewrite <- N.land_assoc. change (N.land 255 255) with 255. reflexivity. Qed.
+Lemma triplet_of_payload dc w rest : triplet_of (tl (desig_payload dc w rest)) = ham2418_dec_word w.
 Proof.
-  intros fl mag0 pkt dc t0 t1 t2 rest Hm Hd Hp. unfold desig_ok, desig_of.
+  unfold triplet_of, desig_payload, ham2418_dec_word. cbn [tl nth].
+  destruct (brev8_involutive (N.land w 255) (land255_lt _)) as [A1 A2].
+  destruct (brev8_involutive (N.land (N.shiftr w 8) 255) (land255_lt _)) as [B1 B2].
+  destruct (brev8_involutive (N.land (N.shiftr w 16) 255) (land255_lt _)) as [C1 C2].
+  rewrite A1, B1, C1, A2, B2, C2. apply dec_mask_third.
+Qed.
+
+(* a designation packet of the selected magazine (designation code 0 or 4; X/28: format 1, i.e. page function 0) whose first
+   triplet carries the 18 data bits d, Hamming 24/18 protected, possibly with one of its 24 bits inverted on the way, is a
+   designation packet for the reader, and the designation it records is d *)
+Theorem designation_unit : forall fl mag0 pkt dc d rest (err : option nat), 1 <= mag0 <= 8 -> dc = 0 \/ dc = 4 -> d < 2 ^ 18 ->
+  pkt = 29 \/ (pkt = 28 /\ N.land d 15 = 0) -> match err with Some p => (p < 24)%nat | None => True end ->
+  let w := match err with Some p => N.lxor (ham2418_word d) (2 ^ N.of_nat p) | None => ham2418_word d end in
+  desig_ok mag0 (3, enc_packet fl mag0 pkt (desig_payload dc w rest)) = true
+  /\ desig_of (3, enc_packet fl mag0 pkt (desig_payload dc w rest)) = (pkt, d).
+Proof.
+  intros fl mag0 pkt dc d rest err Hm Hd Hdl Hp He w. unfold desig_ok, desig_of.
   assert (Hpk : pkt < 32) by (destruct Hp as [-> | [-> _]]; lia).
   rewrite (unit_addr_enc fl mag0 pkt _ (mag_addr_ok mag0 pkt Hm Hpk)). rewrite N.eqb_refl.
-  cbn [length nth tl Nat.ltb Nat.leb negb andb fst snd].
+  rewrite triplet_of_payload.
+  assert (Hw : ham2418_dec_word w = Some d).
+  { subst w. destruct err as [p|]; [apply ham2418_word_single_error; assumption | apply ham2418_word_roundtrip; assumption]. }
+  rewrite Hw. unfold desig_payload at 1 2 3. cbn [length nth tl Nat.ltb Nat.leb negb andb fst snd].
   assert (Hdec : ham84_dec (ham84_enc dc) = Some dc) by (apply ham84_dec_enc_spec; destruct Hd as [-> | ->]; lia). rewrite Hdec.
-  assert (Ht : triplet_of (t0 :: t1 :: t2 :: rest) = triplet_of [t0; t1; t2]) by reflexivity. rewrite Ht.
   split; [|reflexivity].
   assert (Hdc : (dc =? 0) || (dc =? 4) = true) by (destruct Hd as [-> | ->]; reflexivity). rewrite Hdc.
   destruct Hp as [-> | [-> Hn]]; cbn [N.eqb Pos.eqb orb andb negb]; [reflexivity|]. rewrite Hn. reflexivity.
+Qed.
+(* in particular one that confirms the default designation *)
+Theorem default_designation_neutral : forall fl mag0 pkt dc d rest, 1 <= mag0 <= 8 -> dc = 0 \/ dc = 4 -> d < 2 ^ 18 ->
+  pkt = 29 \/ (pkt = 28 /\ N.land d 15 = 0) -> triplet_key d = 0 ->
+  neutral_unit mag0 (3, enc_packet fl mag0 pkt (desig_payload dc (ham2418_word d) rest)) = true.
+Proof.
+  intros fl mag0 pkt dc d rest Hm Hd Hdl Hp Hk. unfold neutral_unit.
+  destruct (designation_unit fl mag0 pkt dc d rest None Hm Hd Hdl Hp I) as [H1 H2]. cbv zeta in H1, H2. rewrite H1, H2. cbn [snd andb].
+  apply N.eqb_eq. exact Hk.
+Qed.
+(* a triplet with two bits inverted is rejected: the packet leaves the designation alone *)
+Theorem damaged_designation_inert : forall pkt dc d rest p q, d < 2 ^ 18 -> (p < 24)%nat -> (q < 24)%nat -> p <> q ->
+  triplet_inert pkt (desig_payload dc (N.lxor (N.lxor (ham2418_word d) (2 ^ N.of_nat p)) (2 ^ N.of_nat q)) rest) = true.
+Proof.
+  intros pkt dc d rest p q Hd Hp Hq Hpq. unfold triplet_inert. rewrite triplet_of_payload.
+  rewrite (ham2418_word_double_error d p q Hd Hp Hq Hpq).
+  destruct (Nat.ltb _ 1); [reflexivity|]. cbn [orb]. destruct (ham84_dec _); [|reflexivity]. rewrite !orb_true_r. reflexivity.
 Qed.
 
 (* a page number with a hexadecimal digit is never one of the decimal pages 0..99 a reader can select *)
@@ -235,16 +268,16 @@ Definition ex_mux : mux :=
                   (1000%Z, (true, ex_row_unit 20 ex_row1));
                   (1040%Z, (false, row_unit 231 1 20 (row_cells ex_row2) []));
                   (1040%Z, (false, (3, enc_packet 231 8 26 [ham84_enc 0; 1; 2; 3])));
-                  (1040%Z, (false, (3, enc_packet 231 8 28 [ham84_enc 0; 0; 0; 0; 77])));
-                  (1040%Z, (false, (3, enc_packet 231 8 29 [ham84_enc 4; 64; 192; 5])));
+                  (1040%Z, (false, (3, enc_packet 231 8 28 (desig_payload 0 (ham2418_word 0) [77]))));
+                  (1040%Z, (false, (3, enc_packet 231 8 29 (desig_payload 4 (N.lxor (ham2418_word 131136) 4096) [5]))));
                   (1040%Z, (true, ex_row_unit 3 ex_row2))]
                  (Some ((1100%Z, hdr_unit 231 8 (ex_hdr 8 9 0 false)),
-                        [(1100%Z, ex_row_unit 5 ex_row1); (1100%Z, (3, enc_packet 231 8 29 [ham84_enc 0; 0; 24; 0]))]));
+                        [(1100%Z, ex_row_unit 5 ex_row1); (1100%Z, (3, enc_packet 231 8 29 (desig_payload 0 (ham2418_word 6144) [])))]));
           mkImux (hdr_unit 231 8 (ex_hdr 8 8 7 false)) [] None;
           mkImux (hdr_unit 231 8 (ex_hdr 8 8 7 false))
                  [(4500%Z, (false, (3, 231 :: 39 :: skipn 2 (enc_packet 231 8 22 (enc_row (row_cells ex_row2))))));
                   (4600%Z, (true, (3, enc_packet 231 8 22 (map sym_byte ex_syms))));
-                  (4600%Z, (false, (3, enc_packet 231 8 28 [ham84_enc 4; 0; 24; 0])))] None ].
+                  (4600%Z, (false, (3, enc_packet 231 8 28 (desig_payload 4 (N.lxor (ham2418_word 6144) 2) []))))] None ].
 Fixpoint chunk3 (evs : list tunit) (fuel : nat) : list pes :=
   match fuel, evs with
   | S f, (t, u) :: (t2, u2) :: (t3, u3) :: r => if ((t =? t2) && (t2 =? t3))%Z then PUnits t 16 [u; u2; u3] [] :: chunk3 r f else PUnits t 21 [u] [3; 44; 231] :: chunk3 ((t2, u2) :: (t3, u3) :: r) f
@@ -261,7 +294,7 @@ Example ex_mux_ok : mux_ok ex_sched ex_mux = true. Proof. vm_compute. reflexivit
 Example ex_pes_ok : forallb pes_ok ex_peses = true /\ flat_map pes_units ex_peses = events ex_sched ex_mux.
 Proof. split; vm_compute; reflexivity. Qed.
 (* an M/29 packet behind the first terminating header and, in the last instance, an X/28 packet designate character set 6
-   (first triplet 0x1800).  X/28 designations take precedence over M/29 ones; the last one applies to every page, the
+   (first triplet data 0x1800, Hamming 24/18 protected, the X/28 one with a corrected bit error).  X/28 designations take precedence over M/29 ones; the last one applies to every page, the
    first one included *)
 Example ex_desig : desig_final false 8 ex_mux = 6144. Proof. vm_compute. reflexivity. Qed.
 Example ex_stream : ttx_feed 888 (map enc_pes ex_peses) = Ok (cues_of ex_sched 900 5000 6144).
